@@ -53,7 +53,13 @@ pub fn run_behaviour(ctx: &RunCtx, phase: &str, spec: &BehaviourSpec) {
     behave::ALLOW_LUAU_ESCAPES.store(ctx.avoid("unicode-escape-not-lua51"), std::sync::atomic::Ordering::Relaxed);
     ctx.search(phase, spec.cases, spec.tape_len, |tape, st| {
         let mut t = Tape::new(tape);
-        let prog = gen_program(&mut t, &spec.opts);
+        let mut prog = gen_program(&mut t, &spec.opts);
+        // one program in six lives in an unusual syntactic home (gen/context.rs)
+        let (wrapped, was) = crate::gen::context::maybe_wrap(std::mem::replace(&mut prog.block, crate::luasyn::ast::Block::new(vec![])), &mut t, spec.opts.luau, 42);
+        prog.block = wrapped;
+        if was {
+            st.class("program_in_unusual_context");
+        }
         for f in &spec.filters {
             if let Some(why) = f(&prog.block) {
                 return CaseResult::Discard(why);
